@@ -173,7 +173,7 @@ class MolGrid(Grid):
             "indices": self.indices,
         }
         # Save each attribute of the atomic grid.
-        for i, atomgrid in enumerate(self.atgrids):
+        for i, atomgrid in enumerate(self.atgrids or []):
             dict_save["atgrid_" + str(i) + "_points"] = atomgrid.points
             dict_save["atgrid_" + str(i) + "_weights"] = atomgrid.weights
             dict_save["atgrid_" + str(i) + "_center"] = atomgrid.center
